@@ -163,6 +163,7 @@ class Run:
         self.asp_answers = list(asp_answers) if asp_answers is not None else None
         self.events = []
         self.marks = {}
+        self.define_result = None      # what LexicalScope::define hands back (frame, name) -> value; default: nothing (unit)
         self.mc = Machine(w.fb, intercept=self.intercept, max_visits=8, budget=300)
 
     def mark(self, obj, tag):
@@ -247,9 +248,10 @@ class Run:
             return fr
         if c == SCOPE + "define":
             self.events.append(("define", a0, a[1], a[2]))
+            back = self.define_result(a0, a[1]) if self.define_result is not None else []
             if isinstance(a0, Frame):
                 a0.defs.d[machine.key_of(a[1])] = (a[1], a[2])
-            return []
+            return back
         if c == SCOPE + "set":
             self.events.append(("set", a0, a[1], a[2]))
             return self.set_result if self.set_result is not None else ok([])
@@ -436,6 +438,9 @@ def application_table(w):
                  "args": args, "panics": [e for e in r.mc.events if e[0] == "panic"], "visited": set(r.mc.visited)}
             if "+" in kind and frames:
                 d["bound_after"] = sorted(str(v_[0]) for v_ in frames[0][1].defs.d.values())
+                # names the frame binds to a procedure closed over that very frame: frame -> procedure -> frame
+                d["closed_over_own_frame"] = sorted(str(v_[0]) for v_ in frames[0][1].defs.d.values()
+                                                    if any(len(u.fields) > 1 and u.fields[1] is frames[0][1] for u in find_enum(v_[1], "User")))
             rows.append(((kind, k), d))
     return rows
 
@@ -554,7 +559,10 @@ def trampoline_table(w):
                               "real": real}))
     # THREE turns; turns 2 and 3 are entered through tail calls whose operator is the same variable, bound to a different procedure
     # each time (a state machine that tail-calls its parameter `next`): every pending call's operator is evaluated anew
-    if not getattr(w.asp, "missing", False):
+    # (and the same with the two pending calls being one and the same expression — one call site reached on consecutive turns, as in
+    # (define (step next x) ... (next next ...)): neither the name nor the place of the call says which procedure is meant)
+    for row_name, shared_site in (("same-operator-name-other-procedure", False), ("same-call-site-other-procedure", True)):
+      if not getattr(w.asp, "missing", False):
         cenv1, cenv2, cenv3, caller = Frame(None, "closure-env-1"), Frame(None, "closure-env-2"), Frame(None, "closure-env-3"), Frame(None, "caller-env")
         sp1 = w.scheme_procedure(w.formals(["a"]), [], [w.sym("B1")])
         sp2 = w.scheme_procedure(w.formals(["x"]), [], [w.sym("B2")])
@@ -562,9 +570,10 @@ def trampoline_table(w):
         p1, p2, p3 = w.user(sp1, cenv1), w.user(sp2, cenv2), w.user(sp3, cenv3)
         a2, a3 = Tok("arg", "W2"), Tok("arg", "W3")
         envA, envB = Frame(None, "frame-of-turn-1"), Frame(None, "frame-of-turn-2")
+        site = w.sym("NEXT")
 
-        def pending(operand, envx):
-            e = Enum(0, [Enum(0, [w.sym("NEXT"), [w.sym(operand)], envx])])
+        def pending(operand, envx, site=site, shared_site=shared_site):
+            e = Enum(0, [Enum(0, [site if shared_site else w.sym("NEXT"), [w.sym(operand)], envx])])
             e.name = "TailCall"
             e.fields[0].name = "Ref"
             return e
@@ -572,7 +581,7 @@ def trampoline_table(w):
         val.name = "Value"
         nexts = [p2, p3]
 
-        def next_value():
+        def next_value(nexts=nexts):
             return ok(w.procedure_value(nexts.pop(0) if len(nexts) > 1 else nexts[0]))
         r = Run(w, answers={"NEXT": next_value, "XA": ok(a2), "XB": ok(a3)},
                 asp_answers=[ok(pending("XA", envA)), ok(pending("XB", envB)), ok(val)],
@@ -580,13 +589,13 @@ def trampoline_table(w):
         try:
             res = r.run(w.ap, [p1, [Tok("arg", "V1")], caller])
             au = [e for e in r.events if e[0] == "apply-user"]
-            rows.append(("same-operator-name-other-procedure", {
+            rows.append((row_name, {
                 "result": res, "applied": [next((i + 1 for i, sp in enumerate((sp1, sp2, sp3)) if e[1] is sp[0] and e[3] is sp[2]), None) for e in au],
                 "third_args_ok": len(au) == 3 and isinstance(au[2][5], list) and len(au[2][5]) == 1 and au[2][5][0] is a3,
                 "third_env_ok": len(au) == 3 and (au[2][4] is cenv3 or (isinstance(au[2][4], Frame) and au[2][4].parent is cenv3)),
                 "recursive_applies": len([e for e in r.events if e[0] == "apply"])}))
         except (absint.Stuck, absint.Loop) as e:
-            rows.append(("same-operator-name-other-procedure", {"stuck": str(e)}))
+            rows.append((row_name, {"stuck": str(e)}))
     # the same with the real apply_scheme_procedure: the body's last form is a call, so the tail evaluator hands back a pending
     # call; it must come back to the trampoline unevaluated, be evaluated once there, and the callee must then run as an
     # ordinary application (fresh frame under ITS closure environment)
@@ -1185,18 +1194,56 @@ def error_location_table(w):
     eval_expression / apply_procedure with?  Rows: the callee of a non-tail call fails; a builtin applied by apply_procedure fails;
     a form of a user procedure's body fails.  Each row also with an error that has a location of its own."""
     rows = []
-    for site in ("call/callee-fails", "apply/builtin-fails", "apply/body-form-fails"):
-        for own in (False, True):
+
+    def real_payload(kind):
+        """a real error value of the crate (code that looks at WHAT failed before deciding where it failed can be followed)"""
+        fbv = lambda n_: dict((vn, vi) for vi, vn in w.fb.variants(n_))
+        ed, le, ty = fbv("error::ErrorData"), fbv("interpreter::error::LogicError"), fbv("values::Type")
+        if kind == "non-procedure":
+            inner = w.named(le, "TypeMisMatch", ["5", w.named(ty, "Procedure", [])])
+        else:
+            inner = w.named(le, "UnboundedSymbol", ["x"])
+        inner.adt = "interpreter::error::LogicError"
+        e_ = w.named(ed, "Logic", [inner])
+        e_.adt = "error::ErrorData"
+        return e_
+    sites = [(s_, "opaque") for s_ in ("call/callee-fails", "apply/builtin-fails", "apply/body-form-fails")]
+    # ... and an operand of a call / of a pending tail call that fails with a REAL error of its own — "5 is not a procedure" raised by
+    # an inner call, an unbound variable — already located where it happened
+    for kind_ in ("non-procedure", "unbound"):
+        sites += [("call/operand-fails", kind_), ("tail-call/operand-fails", kind_), ("call/callee-fails", kind_), ("apply/body-form-fails", kind_)]
+    for site, kind_ in sites:
+        for own in ((False, True) if kind_ == "opaque" else (True,)):
             first_loc = w.nloc
-            payload = Tok("error-data", "EC")
+            try:
+                payload = Tok("error-data", "EC") if kind_ == "opaque" else real_payload(kind_)
+            except Exception as e:
+                rows.append((site + ("" if kind_ == "opaque" else "/" + kind_), own, {"stuck": "the error value could not be built (%s)" % e}))
+                continue
             own_loc = some([7, 7]) if own else none()
             E = _located(payload, own_loc)
             caller, cenv = Frame(None, "caller-env"), Frame(None, "closure-env")
+            label = site + ("" if kind_ == "opaque" else "/" + kind_)
             try:
                 if site == "call/callee-fails":
                     expr = w.call(w.sym("OP"), [w.sym("A1")])
                     r = Run(w, answers={"OP": ok(w.procedure_value(Tok("procedure", "P")))}, apply_answers=[err(E)])
                     res = r.run(w.ee, [expr, caller])
+                elif site == "call/operand-fails":
+                    expr = w.call(w.sym("OP"), [w.sym("A1"), w.sym("A2")])
+                    r = Run(w, answers={"OP": ok(w.procedure_value(Tok("procedure", "P"))), "A2": err(E)})
+                    res = r.run(w.ee, [expr, caller])
+                elif site == "tail-call/operand-fails":
+                    if getattr(w.epc, "missing", False) or getattr(w.asp, "missing", False):
+                        raise absint.Stuck("no function evaluates a pending call / applies a user procedure on this tree")
+                    sp = w.scheme_procedure(w.formals(["a"]), [], [w.sym("B1")])
+                    inner_ = Enum(0, [w.sym("OP2"), [w.sym("X1"), w.sym("X2")], Frame(None, "frame-of-turn-1")])
+                    inner_.name = "Ref"
+                    tc_ = Enum(0, [inner_])
+                    tc_.name = "TailCall"
+                    r = Run(w, follow=[w.epc.name], asp_answers=[ok(tc_)],
+                            answers={"OP2": ok(w.procedure_value(Tok("procedure", "P2"))), "X2": err(E)})
+                    res = r.run(w.ap, [w.user(sp, cenv), [Tok("arg", "V1")], caller])
                 elif site == "apply/builtin-fails":
                     p = w.named(w.proc, "Builtin", [[Tok("name", "builtin-name"), w.formals(["x"]), Tok("body", "builtin-body")]])
                     r = Run(w, builtin_answers=[err(E)])
@@ -1206,10 +1253,10 @@ def error_location_table(w):
                     r = Run(w, follow=[w.asp.name], answers={"B1": err(E)})
                     res = r.run(w.ap, [w.user(sp, cenv), [Tok("arg", "V1")], caller])
             except (absint.Stuck, absint.Loop) as e:
-                rows.append((site, own, {"stuck": str(e)}))
+                rows.append((label, own, {"stuck": str(e)}))
                 continue
             handed = {machine.key_of(some([100 + i, 1])) for i in range(first_loc + 1, w.nloc + 1)}
-            rows.append((site, own, {"result": res, "payload": payload, "own_loc": own_loc, "handed_out": handed}))
+            rows.append((label, own, {"result": res, "payload": payload, "own_loc": own_loc, "handed_out": handed}))
     return rows
 
 
@@ -1367,15 +1414,16 @@ def rule_trampoline(ctx, rule, aspects):
                 continue
             v.row(key, d, [])
             continue
-        if second == "same-operator-name-other-procedure":
-            if "rebind" not in aspects:
+        if second in ("same-operator-name-other-procedure", "same-call-site-other-procedure"):
+            if not (set(aspects) & {"rebind", "operator"}):
                 continue
             v.row(key, d, [
                 (d["recursive_applies"] == 0, "the trampoline calls apply_procedure recursively for a pending tail call"),
                 (d["applied"] == [1, 2, 3] and d["third_args_ok"] and d["third_env_ok"],
-                 "three turns whose second and third are entered through the same operator name, bound to a different procedure each "
+                 "three turns whose second and third are entered through the same operator %s, bound to a different procedure each "
                  "time, apply the procedures %s (expected 1, 2, 3, the third on its own argument under its own closure environment): the "
-                 "operator of a pending call must be evaluated every time, the name says nothing about the procedure" % (d["applied"],))])
+                 "operator of a pending call must be evaluated every time, neither its name nor its place says which procedure it denotes"
+                 % ("expression (one call site reached on consecutive turns)" if second.startswith("same-call-site") else "name", d["applied"],))])
             continue
         if second == "closure-made-in-the-finished-frame":
             if not (set(aspects) & {"rebind", "frame"}):
@@ -1694,6 +1742,104 @@ def rule_eqv_numbers(ctx, rule, name, f):
     return n
 
 
+def definition_statement_table(w):
+    """eval_expression_or_definition on a REAL top-level definition (define x E), x not yet bound / already bound in the environment:
+    what the statement yields (nothing: a definition has no value to print) and what the environment binds afterwards"""
+    fb = w.fb
+    f = fb.find(INTERP + "eval_expression_or_definition")
+    dfn = fb.find(SCOPE + "define")
+    unit = (dfn.local_ty(0) or "()").strip() in ("()", "")
+    st_ = dict((n, i) for i, n in fb.variants("parser::parser::Statement"))
+    fields_ = [x["name"] for x in fb.adt("interpreter::interpreter::Interpreter")["variants"][0]["fields"]]
+    rows = []
+    for bound in (False, True):
+        env = Frame(None, "top-level-env")
+        old = Tok("value", "OLD")
+        if bound:
+            env.defs.d[machine.key_of("x")] = ("x", old)
+        E = w.sym("E")
+        body = Enum(0, [["x", E], w.loc()])
+        body.name, body.adt = "Located", "error::Located"
+        stmt = Enum(st_["Definition"], [body])
+        stmt.name, stmt.adt = "Definition", "parser::parser::Statement"
+        r = Run(w)
+        if not unit:
+            # define hands something back: what, is read off the crate's own define on a frame that binds the name or not (scopes.py)
+            from . import scopes
+            wk = scopes.walk(fb, "define", {0} if bound else set(), 1)
+            if "stuck" in wk:
+                rows.append((bound, {"stuck": "LexicalScope::define hands back a value and cannot be followed (%s)" % wk["stuck"]}))
+                continue
+            kind_ = wk.get("result")
+            if kind_ == "Some":
+                r.define_result = lambda fr, nm, old=old: some(old)
+            elif kind_ == "None":
+                r.define_result = lambda fr, nm: none()
+            else:
+                rows.append((bound, {"stuck": "LexicalScope::define hands back %r" % (kind_,)}))
+                continue
+        selfv = [UNKNOWN for _ in fields_]
+        try:
+            res = r.run(f, [selfv, stmt, env][-f.arg_count:] if f.arg_count <= 3 else [selfv, stmt, env])
+        except (absint.Stuck, absint.Loop) as e:
+            rows.append((bound, {"stuck": str(e)}))
+            continue
+        defines = [e for e in r.events if e[0] == "define"]
+        rows.append((bound, {"result": res, "defines": [(e[1] is env, e[2], isinstance(e[3], Tok) and e[3].tag == "E") for e in defines], "old": old}))
+    return f, rows
+
+
+def rule_definition_statement(ctx, rule):
+    """-> rows decided"""
+    fb = ctx.fb()
+    w = tables(fb)["w"]
+    try:
+        f, rows = definition_statement_table(w)
+    except (mir.AnchorMissing, KeyError) as e:
+        ctx.undecided(rule, "definition-statement", "the statement evaluator could not be set up (%s)" % e)
+        return 0
+    v = Verdict(ctx, rule, mir_where(f))
+    for bound, d in rows:
+        key = "definition-statement/%s" % ("name-already-bound" if bound else "name-unbound")
+        if "stuck" in d:
+            v.row(key, d, [])
+            continue
+        res = d["result"]
+        nothing = isinstance(res, Enum) and getattr(res, "name", None) == "Ok" and res.fields and isinstance(res.fields[0], Enum) \
+            and is_none(res.fields[0])
+        v.row(key, d, [
+            (nothing, "evaluating (define x E) with x %s yields %r, expected no value: a definition prints nothing and is not the value "
+                      "of a program" % ("already bound" if bound else "not yet bound", res)),
+            (d["defines"] == [(True, "x", True)], "evaluating (define x E) binds %s, expected x bound once, to the value of E, in the "
+                                                  "environment of the statement" % (d["defines"],))])
+    return v.decided
+
+
+def is_none(x):
+    return isinstance(x, Enum) and ((getattr(x, "name", None) == "None") or (x.variant == 0 and not x.fields and getattr(x, "name", None) in (None, "None")))
+
+
+def rule_frame_cycles(ctx, rule):
+    """-> (decided, names): after a procedure with an internal procedure definition has returned, does its frame still hold a
+    procedure whose environment is that frame?  With reference-counted environments (no weak edge anywhere) such a pair is
+    never freed: every call leaves its frame behind."""
+    fb = ctx.fb()
+    t = tables(fb)
+    where = mir_where(t["w"].ap)
+    for (kind, k), d in t["application"]:
+        if "+" not in kind:
+            continue
+        if "stuck" in d or d.get("closed_over_own_frame") is None:
+            ctx.undecided(rule, "internal-procedure-definition", "cannot follow the application of a procedure with an internal procedure "
+                          "definition (%s)" % d.get("stuck", "no frame seen"), where)
+            return 0, []
+        names = d["closed_over_own_frame"]
+        weak = sorted(n_ for n_, a in fb.adts.items() if any("Weak<" in str(f.get("ty", "")) for v_ in a.get("variants", []) for f in v_.get("fields", [])))
+        ctx.inst(rule, "internal-procedure-definition", {"frame_binds_procedures_closed_over_it": names, "types_with_weak_references": weak})
+        return 1, (names if not weak else [])
+    return 0, []
+
+
 def rule_eqv_kinds(ctx, rule):
     fb = ctx.fb()
     from .ctx import where_of
@@ -1794,10 +1940,14 @@ def application_is_sound(fb):
 def conditional_table(w, f):
     """(if T C A) / (if T C) evaluated by f (eval_expression or the tail evaluator), for both outcomes of the test"""
     rows = []
+    # (has_alt: True / False, or "arm-same-text-as-test": the arm selected is another occurrence of the very text of the test — (and e e)
+    # expands to (if e e #f) — which is evaluated like any other arm: the same text is not the same evaluation)
     for truth in (True, False):
-        for has_alt in (True, False):
+        for has_alt in (True, False, "arm-same-text-as-test"):
             env = Frame(None, "env")
             T, C, A = w.sym("T"), w.sym("C"), w.sym("A")
+            if has_alt == "arm-same-text-as-test":
+                C, A = (w.sym("T"), A) if truth else (C, w.sym("T"))
             expr = w.cond(T, C, A if has_alt else None)
             r = Run(w, truths={"T": truth})
             try:
@@ -1868,7 +2018,8 @@ def rule_conditional(ctx, rule, f):
     v = Verdict(ctx, rule, mir_where(f))
     short = f.name.rsplit("::", 1)[-1]
     for (truth, has_alt), d in conditional_table(w, f):
-        key = "%s/test=%s,%s" % (short, "true" if truth else "false", "alternative" if has_alt else "no-alternative")
+        same = has_alt == "arm-same-text-as-test"
+        key = "%s/test=%s,%s" % (short, "true" if truth else "false", "arm-same-text-as-test" if same else ("alternative" if has_alt else "no-alternative"))
         if "stuck" in d:
             v.row(key, d, [])
             continue
@@ -1876,6 +2027,9 @@ def rule_conditional(ctx, rule, f):
         want_arm = "C" if truth else ("A" if has_alt else None)
         arms = [x[1] for x in evs[1:]]
         form = "(if T C%s)" % (" A" if has_alt else "")
+        if same:
+            want_arm = "T"
+            form = "(if T T A)" if truth else "(if T C T)"
         checks = [
             (bool(evs) and evs[0] == ("eval", "T") and d["as_boolean"], "the test of %s is not evaluated first, once, and judged by as_boolean "
              "(evaluations %s)" % (form, evs)),
